@@ -116,7 +116,7 @@ PROPS = {
         trusted=CONN_TRUST,
     ),
     "C14": dict(
-        domains=[("conn", "closenotify", 600, 8000), ("conn", "cnall4", 1, 1), ("conn", "serve", 200, 2000), ("sctp", "serve", 300, 4000)],
+        domains=[("conn", "closenotify", 600, 8000), ("conn", "cnall4", 1, 1), ("conn", "serve", 200, 2000), ("sctp", "serve", 300, 4000), ("conn", "tlscn", 8, 40)],
         thorough_extra=[("conn", "cnall6", 1, 1)],
         relevant=["C14:"],
         theorems=["DV.Props.C14."+t for t in ["C14_once","C14_only_when_gone","C14_quiet","C14_late_request","C14_transparent","C14_nothing_stuck","C14_multistream","C14_gen"]],
@@ -124,7 +124,7 @@ PROPS = {
         trusted=CONN_TRUST,
     ),
     "C15": dict(
-        domains=[("conn", "faults", 500, 6000), ("conn", "faults2", 300, 4000), ("conn", "multi", 300, 4000), ("conn", "accept", 60, 600), ("conn", "lw", 300, 4000)],
+        domains=[("conn", "faults", 500, 6000), ("conn", "faults2", 300, 4000), ("conn", "multi", 300, 4000), ("conn", "accept", 60, 600), ("conn", "lw", 300, 4000), ("conn", "xtalk", 40, 400)],
         thorough_extra=[("conn", "cnall5", 1, 1)],
         relevant=["C15:"],
         theorems=["DV.Props.C15."+t for t in ["C15_panic_contained","C15_bad_input_contained","C15_one_report","C15_fault_cleanup","C15_frame","C15_mux_lock","C15_mux_lock_needs_defer","C15_listener","C15_listener_perm","C15_write_contained","C15_late_write_fails","C15_write_needs_own_writer","C15_gen"]],
